@@ -51,7 +51,8 @@ def _request(tree, env, variant):
     idx_ids, idxs, ams = {}, [], []
 
     def leaf_ok(l):
-        return l['t'] == 'F' and not l.get('units') and set(l.get('derivs', {})) <= {'t'}
+        return (l['t'] == 'F' and not l.get('units') and set(l.get('derivs', {})) <= {'t'}
+                and not any(d.get('units') for d in l.get('derivs', {}).values()))
 
     def tabulate(fns, q):
         vals = np.asarray(q._values_, dtype=float).ravel()
